@@ -63,6 +63,9 @@ def teardown_spawns(rng, n):
 
 def run(ctx):
     machine_prop.run(ctx, FAMILIES, MONITORS + ['C04'], extra_scenarios=flag_untils(ctx.rng, ctx.n(60, 1200)))
+    # until-blocks on condition objects that an earlier / nested simulation has used already (family of C01)
+    from harness.props import C01
+    C01.reused_conditions(ctx, ctx.n(20, 300))
     # "its children are closed": C04's monitor (nothing of a child runs after the block was left) on the directed family
     machine_prop.run(ctx, [], MONITORS + ['C04'], extra_scenarios=teardown_spawns(ctx.rng, ctx.n(30, 500)))
     # dates that are inexact in binary floating point: the block must end at EXACTLY the date (implementation only)
